@@ -1,0 +1,210 @@
+//! Verification hooks (cargo feature `verif-hooks`, off by default).
+//!
+//! The tool iterates over several `HashMap`/`HashSet`s whose order is random per
+//! process. These hooks let an external harness *choose* that order so that every
+//! iteration order can be explored and replayed. With the feature off this module
+//! is not compiled and no call site exists.
+//!
+//! A hooked site hands its items to [`permute`]: the items are sorted by a key to
+//! get a canonical order, the schedule provider is asked for an index `p < n!`,
+//! and the p-th permutation (factorial number system) of the sorted list is
+//! returned. Without a provider the result is the sorted list (index 0).
+//!
+//! Providers:
+//! * in process: a thread-local closure installed with [`set_provider`];
+//! * subprocess: env `TAURI_TYPEGEN_VERIF_SCHEDULE="site#k=idx;site#k=idx;..."`
+//!   (k = 0-based occurrence of that site in this process; unspecified = 0);
+//! * env `TAURI_TYPEGEN_VERIF_TRACE=<file>` appends one line per consultation:
+//!   `site<TAB>occurrence<TAB>n<TAB>choice<TAB>key1,key2,...`.
+//!
+//! An index that is out of range for the number of items aborts the process with
+//! exit status 97 (replay divergence) - it is never silently wrapped.
+
+use std::cell::RefCell;
+use std::collections::HashMap;
+use std::io::Write;
+
+/// (site, sorted keys) -> permutation index
+pub type Provider = Box<dyn FnMut(&str, &[String]) -> usize>;
+
+thread_local! {
+    static PROVIDER: RefCell<Option<Provider>> = const { RefCell::new(None) };
+    static OCCURRENCES: RefCell<HashMap<String, usize>> = RefCell::new(HashMap::new());
+    static ENV_SCHEDULE: RefCell<Option<HashMap<(String, usize), usize>>> = const { RefCell::new(None) };
+}
+
+/// Install (or remove) the in-process schedule provider for the current thread.
+/// Also resets the per-site occurrence counters.
+pub fn set_provider(p: Option<Provider>) {
+    PROVIDER.with(|c| *c.borrow_mut() = p);
+    OCCURRENCES.with(|c| c.borrow_mut().clear());
+}
+
+fn factorial_saturating(n: usize) -> usize {
+    let mut f: usize = 1;
+    for i in 2..=n {
+        f = f.saturating_mul(i);
+    }
+    f
+}
+
+/// p-th permutation of `items` in the factorial number system (p = 0 is identity).
+fn nth_permutation<T>(mut items: Vec<T>, mut idx: usize) -> Vec<T> {
+    let n = items.len();
+    let mut out = Vec::with_capacity(n);
+    for i in (0..n).rev() {
+        let f = factorial_saturating(i);
+        let k = idx / f;
+        idx %= f;
+        out.push(items.remove(k));
+    }
+    out
+}
+
+fn env_schedule_lookup(site: &str, occurrence: usize) -> usize {
+    ENV_SCHEDULE.with(|c| {
+        let mut guard = c.borrow_mut();
+        if guard.is_none() {
+            let mut map = HashMap::new();
+            if let Ok(spec) = std::env::var("TAURI_TYPEGEN_VERIF_SCHEDULE") {
+                for part in spec.split(';') {
+                    let part = part.trim();
+                    if part.is_empty() {
+                        continue;
+                    }
+                    let parsed = part.split_once('=').and_then(|(lhs, idx)| {
+                        let (site, occ) = lhs.split_once('#')?;
+                        Some((
+                            site.to_string(),
+                            occ.parse::<usize>().ok()?,
+                            idx.parse::<usize>().ok()?,
+                        ))
+                    });
+                    match parsed {
+                        Some((s, o, i)) => {
+                            map.insert((s, o), i);
+                        }
+                        None => {
+                            eprintln!("verif-hooks: malformed schedule entry '{}'", part);
+                            std::process::exit(97);
+                        }
+                    }
+                }
+            }
+            *guard = Some(map);
+        }
+        guard
+            .as_ref()
+            .unwrap()
+            .get(&(site.to_string(), occurrence))
+            .copied()
+            .unwrap_or(0)
+    })
+}
+
+fn choose(site: &str, keys: &[String]) -> usize {
+    let occurrence = OCCURRENCES.with(|c| {
+        let mut m = c.borrow_mut();
+        let e = m.entry(site.to_string()).or_insert(0);
+        let v = *e;
+        *e += 1;
+        v
+    });
+    let from_provider = PROVIDER.with(|c| c.borrow_mut().as_mut().map(|p| p(site, keys)));
+    let idx = match from_provider {
+        Some(i) => i,
+        None => env_schedule_lookup(site, occurrence),
+    };
+    let n_fact = factorial_saturating(keys.len());
+    if idx >= n_fact {
+        eprintln!(
+            "verif-hooks: schedule index {} out of range for site {} occurrence {} with {} items",
+            idx,
+            site,
+            occurrence,
+            keys.len()
+        );
+        std::process::exit(97);
+    }
+    if let Ok(path) = std::env::var("TAURI_TYPEGEN_VERIF_TRACE") {
+        if let Ok(mut f) = std::fs::OpenOptions::new()
+            .create(true)
+            .append(true)
+            .open(path)
+        {
+            let _ = writeln!(
+                f,
+                "{}\t{}\t{}\t{}\t{}",
+                site,
+                occurrence,
+                keys.len(),
+                idx,
+                keys.join(",")
+            );
+        }
+    }
+    idx
+}
+
+/// Return `items` in the order chosen by the schedule provider for `site`.
+pub fn permute<T>(site: &str, items: Vec<T>, key: impl Fn(&T) -> String) -> Vec<T> {
+    let mut keyed: Vec<(String, T)> = items.into_iter().map(|t| (key(&t), t)).collect();
+    keyed.sort_by(|a, b| a.0.cmp(&b.0));
+    let keys: Vec<String> = keyed.iter().map(|k| k.0.clone()).collect();
+    let idx = choose(site, &keys);
+    nth_permutation(keyed.into_iter().map(|k| k.1).collect(), idx)
+}
+
+/// Reorder the members of the object stored under `member` in the (flat) JSON
+/// object `json`. Everything else is re-serialised unchanged (top-level members
+/// in their original order), so the production data layout stays the single
+/// source of truth for what is hashed.
+pub fn permute_json_members(site: &str, json: String, member: &str) -> String {
+    let Ok(serde_json::Value::Object(top)) = serde_json::from_str::<serde_json::Value>(&json)
+    else {
+        return json;
+    };
+    let Some(serde_json::Value::Object(inner)) = top.get(member) else {
+        return json;
+    };
+    if inner.len() < 2 {
+        return json;
+    }
+    let entries: Vec<(String, serde_json::Value)> =
+        inner.iter().map(|(k, v)| (k.clone(), v.clone())).collect();
+    let entries = permute(site, entries, |kv| kv.0.clone());
+    let rendered_inner = format!(
+        "{{{}}}",
+        entries
+            .iter()
+            .map(|(k, v)| format!(
+                "{}:{}",
+                serde_json::to_string(k).unwrap_or_default(),
+                serde_json::to_string(v).unwrap_or_default()
+            ))
+            .collect::<Vec<_>>()
+            .join(",")
+    );
+    // Find the original member order by scanning the top-level keys as they
+    // appear in the text (serde_json::Map may be sorted).
+    let mut keys_in_order: Vec<(usize, String)> = top
+        .keys()
+        .filter_map(|k| {
+            json.find(&format!("{}:", serde_json::to_string(k).ok()?))
+                .map(|pos| (pos, k.clone()))
+        })
+        .collect();
+    keys_in_order.sort();
+    let rendered: Vec<String> = keys_in_order
+        .iter()
+        .map(|(_, k)| {
+            let v = if k == member {
+                rendered_inner.clone()
+            } else {
+                serde_json::to_string(&top[k]).unwrap_or_default()
+            };
+            format!("{}:{}", serde_json::to_string(k).unwrap_or_default(), v)
+        })
+        .collect();
+    format!("{{{}}}", rendered.join(","))
+}
